@@ -18,7 +18,7 @@ Two readings of a constraint live here:
   post-sort and the truncation (`query`).  Defects of the code are modelled as they are.
 
 Not modelled: `At` (always "now"), `Continue`/`Around` (C09), location / EXIF / image / media
-constraints, `ValueMatchesFloat`, `CaseInsensitive`, `Regexp`, `InLast`, `IsImage`, claims dated in
+constraints, `ValueMatchesFloat`, `Regexp`, `CaseInsensitive` on non-ASCII strings, `InLast`, `IsImage`, claims dated in
 the future, deleted claims, several signers, the expression parser.
 -/
 namespace Pk.Search
@@ -69,7 +69,11 @@ def isInfix (p : Bytes) : Bytes → Bool
   | [] => p.isEmpty
   | c :: s => p.isPrefixOf (c :: s) || isInfix p s
 
-/-- StringConstraint (query.go:616) without CaseInsensitive and Regexp -/
+/-- ASCII lower case: what strings.EqualFold / strutil.ContainsFold / HasPrefixFold / HasSuffixFold
+compare by on ASCII strings -/
+def lowerB (s : Str) : Str := s.map (fun c => if 65 ≤ c && c ≤ 90 then c + 32 else c)
+
+/-- StringConstraint (query.go:616) without Regexp; CaseInsensitive for ASCII strings -/
 structure StrC where
   empty : Bool
   equals : Str
@@ -77,16 +81,18 @@ structure StrC where
   hasPrefix : Str
   hasSuffix : Str
   byteLen : Option IntC
+  caseInsensitive : Bool
 deriving DecidableEq, Repr
 
 /-- StringConstraint.stringMatches (query.go:656) -/
 def StrC.stringMatches (c : StrC) (s : Str) : Bool :=
+  let f : Str → Str := if c.caseInsensitive then lowerB else id
   !(c.empty && !s.isEmpty) &&
   optInt c.byteLen s.length &&
-  (c.equals.isEmpty || s == c.equals) &&
-  (c.contains.isEmpty || isInfix c.contains s) &&
-  (c.hasPrefix.isEmpty || c.hasPrefix.isPrefixOf s) &&
-  (c.hasSuffix.isEmpty || c.hasSuffix.isSuffixOf s)
+  (c.equals.isEmpty || f s == f c.equals) &&
+  (c.contains.isEmpty || isInfix (f c.contains) (f s)) &&
+  (c.hasPrefix.isEmpty || (f c.hasPrefix).isPrefixOf (f s)) &&
+  (c.hasSuffix.isEmpty || (f c.hasSuffix).isSuffixOf (f s))
 
 def optStr (c : Option StrC) (s : Str) : Bool :=
   match c with
